@@ -60,8 +60,9 @@ const Shape g_shapes[] = {
   /*5 op3      */ {MOCK_M, F1, MK_EQ, MK_ANY, 0, 0, 0, TF_DEFAULT, 0, 0, ACT_RET, "A"},
   /*6 op5/6    */ {MOCK_M, G1, MK_ANY, MK_ANY, 0, 0, 1, TF_N, 2, 0, ACT_RET, "QTA"},
   /*7 op15     */ {MOCK_M, G1, MK_ANY, MK_ANY, 0, 0, 1, TF_ATMOST, 2, 0, ACT_RET, "QTA"},
+  /*8 A0       */ {MOCK_M, F1, MK_ANY, MK_ANY, 0, 1, 0, TF_ALLOW, 0, 0, ACT_RET, "SA"},   // its side effect constructs a tracer (inside the call, i.e. under the library's lock)
 };
-const int g_nshapes = 8;
+const int g_nshapes = 9;
 static const Site g_nosite = {"", 0UL, ""};
 const Site& site_of(int, int) { return g_nosite; }
 bool site_exists(int, int) { return false; }
@@ -105,6 +106,16 @@ static int created_slot(const Program& p, int t, int j) {  // model slot of the 
 struct ThreadLog { std::vector<std::string> reports; };
 static ThreadLog g_tlog[MAXT + 1];  // per worker, last = main
 
+// tracers are constructed by A0's side effect - user code running inside a mock call, so their registration is ordered with
+// every other call by the library's own lock - and stay alive to the end of the program; a record is an item of the traced
+// call's result
+struct SchedTracer : trompeloeil::tracer {
+  void trace(char const*, unsigned long, std::string const&) override { g_tlog[me >= 0 ? me : MAXT].reports.push_back("N:trace"); }
+};
+static std::unique_ptr<SchedTracer> g_tr[NTRC];
+static int g_ntr = 0;
+static void make_tracer() { if (g_ntr < NTRC) g_tr[g_ntr++].reset(new SchedTracer); }
+
 static const char* report_kind(const std::string& m) {
   if (m.rfind("No match for call", 0) == 0) return "nomatch";
   if (m.rfind("Match of forbidden call", 0) == 0) return "forbidden";
@@ -130,7 +141,7 @@ static std::string take_reports(int t) {
 struct ExecResult { std::vector<std::string> res[MAXT]; std::string final_obs; int npoints = 0; std::vector<int> nen, granted; bool deadlock = false, bad_choice = false; int preemptions = 0; };
 
 static std::string call_res(std::function<int()> f, int t) {
-  try { int v = f(); std::string r = "r:" + std::to_string(v); std::string rep = take_reports(t); return rep.empty() ? r : r + " +" + rep; }
+  try { int v = f(); std::string r = "r:" + std::to_string(v); std::string rep = take_reports(t); return r + " +" + rep; }
   catch (Fatal&) { return take_reports(t); }
 }
 
@@ -143,7 +154,7 @@ static ExecResult execute(const Program& p, const std::vector<int>& choices) {
   std::unique_ptr<trompeloeil::sequence> s(new trompeloeil::sequence), s2(new trompeloeil::sequence), s3(new trompeloeil::sequence);
   std::unique_ptr<WObj> w(new WObj);
   E slot[NSLOT];
-  slot[S_A0] = NAMED_ALLOW_CALL(*m, f(trompeloeil::_)).RETURN(100 + S_A0);
+  slot[S_A0] = NAMED_ALLOW_CALL(*m, f(trompeloeil::_)).SIDE_EFFECT(make_tracer()).RETURN(100 + S_A0);
   slot[S_Q1] = NAMED_REQUIRE_CALL(*m, f(1)).IN_SEQUENCE(*s).TIMES(AT_LEAST(1)).RETURN(100 + S_Q1);
   slot[S_Q2] = NAMED_REQUIRE_CALL(*m, g(trompeloeil::_)).IN_SEQUENCE(*s, *s2).RETURN(100 + S_Q2);
   slot[S_D] = NAMED_REQUIRE_DESTRUCTION(*w).IN_SEQUENCE(*s2);
@@ -191,6 +202,7 @@ static ExecResult execute(const Program& p, const std::vector<int>& choices) {
   q += '|'; q += s->is_completed() ? '1' : '0'; q += s2->is_completed() ? '1' : '0'; q += s3->is_completed() ? '1' : '0';
   R.final_obs = q;
   // quiet teardown
+  while (g_ntr > 0) g_tr[--g_ntr].reset();
   for (auto& e : slot) e.reset();
   w.reset(); m.reset(); m2.reset(); s.reset(); s2.reset(); s3.reset();
   for (auto& l : g_tlog) l.reports.clear();
@@ -242,6 +254,7 @@ static std::string reps_str(const Outcome& o) {
   std::vector<std::string> v;
   static const char* RK[] = {"nomatch", "forbidden", "seqmis", "unfulfilled", "pending_destroyed", "seq_teardown", "still_alive", "unexpected_destruction", "other"};
   for (auto& r : o.reps) v.push_back(std::string(r.fatal ? "F:" : "N:") + RK[r.kind] + (r.optional ? "?" : ""));  // '?': the statement allows 0 or 1 of it
+  for (auto& t : o.traces) v.push_back(!t.empty() && t[0] == '?' ? "N:trace?" : "N:trace");                          // a trace record delivered during the call
   std::sort(v.begin(), v.end());
   std::string s; for (auto& x : v) { s += x; s += ','; } return s;
 }
@@ -254,7 +267,8 @@ static Model initial_model() {
     for (int q : seqs) md.micro_register(slot, q);
     md.micro_hook(slot);
   };
-  mk(S_A0, 0, 0, 0, 0, INF, {});
+  mk(S_A0, 8, 0, 0, 0, INF, {});
+  md.st.e[S_A0].semode[0] = 4;   // constructs a tracer
   mk(S_Q1, 1, 0, 1, 1, INF, {0});
   mk(S_Q2, 2, 0, 0, 1, 1, {0, 1});
   mk(S_D, 3, 0, 0, 1, 1, {1});
@@ -268,7 +282,7 @@ static std::string apply_micro(Model& md, const Micro& mi, std::string& acc) {
     case MI_CALL: {
       Op op; memset(&op, 0, sizeof op); op.kind = OP_CALL; op.obj = 0; op.fn = (int8_t)mi.a; op.a1 = (int8_t)mi.b;
       Outcome o = md.step(op);
-      if (o.kind == OK_ACCEPT) acc = "r:" + std::to_string(100 + o.handler); else acc = reps_str(o);
+      if (o.kind == OK_ACCEPT) { std::string tr = reps_str(o); acc = "r:" + std::to_string(100 + o.handler) + " +" + tr; } else acc = reps_str(o);
       break;
     }
     case MI_CREATE_HOOK: { const Shape& sh = g_shapes[mi.b]; int lo, hi; Op d; memset(&d, 0, sizeof d); Model::bounds_of(sh, d, lo, hi); md.micro_begin(mi.a, mi.b, 0, 1, lo, hi); md.micro_hook(mi.a); acc = "ok"; break; }
